@@ -40,6 +40,22 @@ def base_pid(pid: str) -> str:
     return re.sub(r"#\d+$", "", pid or "")
 
 
+def finding_pid(pid: str) -> str:
+    """Identity used in finding keys.  Registry testcases are identified by their COMPONENT
+    (R/<context>/<component>): which of a component's testcases exposes a numerical defect depends
+    on solver models and timing, the defect itself belongs to the component's lowering."""
+    p = base_pid(pid)
+    for pre in ("OFF/", "D/", "P/"):
+        if p.startswith(pre):
+            return pre + finding_pid(p[len(pre):])
+    if p.startswith("R/"):
+        parts = p.split("/")
+        return "/".join(parts[:3])
+    if p.startswith("G/A1/mixdt."):
+        return p.rsplit("/", 1)[0]  # both operand orders are one call site
+    return p
+
+
 def write_replay(prop, key, payload):
     d = os.path.join(VERIF, "replays", prop)
     os.makedirs(d, exist_ok=True)
